@@ -358,11 +358,11 @@ macro_rules! exec_harness {
         #[kani::stub(<crate::parser::tokenizer::Tokenizer as core::iter::Iterator>::next, stub_next)]
         #[kani::stub(crate::parser::tokenizer::Token::match_program_header, stub_match)]
         pub fn $name() {
-            static TREE: Node<'static, RDev> = $tree;
+            let tree: &'static Node<'static, RDev> = &$tree;
             let codes = setup_script::<$h>();
             let rel = any_relation(&$tab);
-            let start: &'static Node<'static, RDev> = $start(&TREE);
-            check_exec(&TREE, start, $sid, &$tab, &rel, &codes, $depth);
+            let start: &'static Node<'static, RDev> = $start(tree);
+            check_exec(tree, start, $sid, &$tab, &rel, &codes, $depth);
         }
     };
 }
